@@ -8,6 +8,7 @@ package mcp
 
 import (
 	"bufio"
+	"bytes"
 	"context"
 	"encoding/json"
 	"fmt"
@@ -314,13 +315,23 @@ func (t *stdioClientTransport) readLoop() {
 		}
 	}()
 
+	// One JSON message per line. A json.Decoder cannot be used here: after an undecodable value its
+	// error is sticky, and retrying it spins without ever consuming the rest of the stream.
+	reader := bufio.NewReader(t.stdout)
 	for !t.closed.Load() {
-		var rawMessage json.RawMessage
-		if err := t.decoder.Decode(&rawMessage); err != nil {
-			if err == io.EOF || t.closed.Load() {
+		line, err := reader.ReadBytes('\n')
+		if len(bytes.TrimSpace(line)) == 0 {
+			if err != nil {
 				break
 			}
-			t.logger.Errorf("Error reading message: %v", err)
+			continue
+		}
+		var rawMessage json.RawMessage
+		if uErr := json.Unmarshal(line, &rawMessage); uErr != nil {
+			t.logger.Errorf("Error reading message: %v", uErr)
+			if err != nil {
+				break
+			}
 			continue
 		}
 
